@@ -77,7 +77,7 @@ var BagLink = Macro{
 // (dqueue's TCPChannel, load_balancer/proxy's ReliableFIFOLink without the enabled flag):
 //
 //	read  { await Len($variable) > 0; with (msg = Head($variable)) { $variable := Tail($variable); yield msg; } }
-//	write { await Len($variable) < bound; yield Append($variable, $value); }      (no await if bound <= 0)
+//	write { await Len($variable) < bound; yield Append($variable, $value); }      (no await if bound < 0)
 func FIFOLink(bound int) Macro {
 	return Macro{
 		Read: func(a *Access) (tla.Value, error) {
@@ -90,7 +90,7 @@ func FIFOLink(bound int) Macro {
 		},
 		Write: func(a *Access, v tla.Value) error {
 			q := a.Var()
-			if bound > 0 && q.AsTuple().Len() >= bound {
+			if bound >= 0 && q.AsTuple().Len() >= bound {
 				return distsys.ErrCriticalSectionAborted
 			}
 			a.SetVar(tla.ModuleAppend(q, v))
